@@ -31,7 +31,7 @@ def run(ctx, args):
     for i in range(2 if q else 6):
         for attempt in (0, 1):
             try:
-                rc, out = ctx.run_driver("TestVfStress", env={"VERIF_MODE": "race", "VERIF_SEED": ctx.seed + i, "VERIF_PER": 250 if q else 1200}, race=True, timeout=1500, allow_fail=True)
+                rc, out = ctx.run_driver("TestVfStress", env={"VERIF_MODE": "race", "VERIF_HANG_S": 0, "VERIF_SEED": ctx.seed + i, "VERIF_PER": 250 if q else 1200}, race=True, timeout=1500, allow_fail=True)
                 break
             except Infra as e:      # a run that does not end on a loaded machine is retried once; never a verdict
                 if attempt or "timed out" not in str(e):
@@ -88,7 +88,7 @@ def run(ctx, args):
 
 def probe(ctx, seed, q, lines):
     trace = os.path.join(ctx.scratch, "stress_trace_%d.ndjson" % seed)
-    rc, out = ctx.run_driver("TestVfStress", env={"VERIF_MODE": "probe", "VERIF_SEED": seed, "VERIF_TRACE": trace, "VERIF_PER": 300 if q else 1500}, timeout=1500, allow_fail=True)
+    rc, out = ctx.run_driver("TestVfStress", env={"VERIF_MODE": "probe", "VERIF_HANG_S": 0, "VERIF_SEED": seed, "VERIF_TRACE": trace, "VERIF_PER": 300 if q else 1500}, timeout=1500, allow_fail=True)
     if rc != 0:
         if "VF-INFRA" in out:
             raise Infra("stress driver self-check failed:\n" + out[-3000:])
